@@ -33,6 +33,10 @@ class C17(Prop):
         self.bitcoin, self.core, self.S = bitcoin, bitcoin.core, S
 
     def generate(self, rng, tier, shard, nshards):
+        # the case list must be the SAME in every shard (each shard keeps every nshards-th case), so all
+        # randomness comes from one generator seeded identically in all shards, not from the per-shard rng
+        import random
+        rng = random.Random('%s:C17:%s:common' % (getattr(self, 'seed', 0), tier))
         big = tier == 'thorough'
         mants = [0, 1, 0x7f, 0x80, 0xff, 0x100, 0x7fff, 0x8000, 0xffff, 0x10000, 0x7fffff, 0x800000, 0x800001,
                  0xffffff]
@@ -71,8 +75,12 @@ class C17(Prop):
                      0x03800001, 0x04800000, 0x1c800001, 0x1d00ffff, 0x1d00ffff | 0x800000, 0x207fffff,
                      0x20800000, 0x2100ffff, 0x21010000, 0x220000ff, 0x22000100, 0x23000001, 0xff000001,
                      0xffffffff, 0x1e0377ae, 0x2000ffff, 0x1f00ffff, 0x20010000, 0x207fffff + 1}
-            bits |= {(e << 24) | rng.choice([1, 0x7fff, 0x8000, 0x7fffff, 0x800000, 0xffffff, rng.randrange(1 << 24)])
-                     for e in range(0, 256, 1 if big else 5)}
+            # every exponent around the 256-bit boundary (Core's overflow thresholds are 32/33/34 bytes) with every
+            # boundary mantissa, systematically; all exponents in the thorough tier
+            bm = [1, 0x7f, 0x80, 0xff, 0x100, 0x7fff, 0x8000, 0xffff, 0x10000, 0x7fffff, 0x800000, 0x800001, 0xffffff]
+            exps = range(256) if big else list(range(0, 41)) + [0x7f, 0x80, 0xfe, 0xff]
+            bits |= {(e << 24) | m for e in exps for m in bm}
+            bits |= {(e << 24) | rng.choice(bm + [rng.randrange(1 << 24)]) for e in range(0, 256, 1 if big else 5)}
             bits |= {rng.randrange(1 << 32) for _ in range(2000 if big else 100)}
             for b in sorted(bits):
                 i += 1
